@@ -747,6 +747,23 @@ NON_GENERABLE_KNOWN_MASS = [
     ("C{[>][<]CC[>][<]}C.|200|", None),
     ("CCCCC.|500|O{[>][<]CCO[>][<]}[H].|0.5|", None),
 ]
+# systems the library calls generable (mass known) in which one component can never be completed: its molecules keep an open
+# descriptor (open right terminal without suffix, a lone token with a descriptor).  Iteration may refuse (raise) when that
+# component comes up; it must never yield an incomplete molecule and never end silently short of the system mass.
+OPEN_ENDED_COMPONENTS = ["OC{[$][$]CC[$][$]}|uniform(40, 80)|", "C{[>][<]CC[>][<]}|gauss(80, 10)|", "CC[$]", "[<]CC[>]",
+                         "{[][<]CCO[>]; [<]C[>]}|poisson(60)|", "N{[$][$]CC(C)[$], [$]CO[$][$]}|flory_schulz(0.05)|"]
+CLOSED_COMPONENTS = ["CCO", "CCCC", "O", "C{[>][<]CC[>][<]}|gauss(80, 10)|C", "{[][<]CCO[>]; [<]C, [>]F[]}|poisson(60)|", "c1ccccc1C"]
+
+
+def gen_open_ended_system(rnd):
+    n_closed = rnd.choice([0, 1, 1, 2])
+    comps = [rnd.choice(OPEN_ENDED_COMPONENTS)] + [rnd.choice(CLOSED_COMPONENTS) for _ in range(n_closed)]
+    rnd.shuffle(comps)
+    masses = [float(rnd.choice([50, 100, 300, 500, 1000])) for _ in comps]
+    text = "".join(c + ".|%s|" % _f_mix(rnd, m) for c, m in zip(comps, masses))
+    return text, sum(masses)
+
+
 NON_GENERABLE_SYSTEMS = [
     "CCO",
     "CCO.|50%|CC",
